@@ -22,8 +22,9 @@ Section Timing.
 
   (* the instruction at PC, decoded by bit fields *)
   Definition instr_at (s : cpu) (b : B) : instr :=
-    let op := snd (brd b (pc s)) in
-    if op =? 203 then decode_cb (snd (brd (fst (brd b (pc s))) ((pc s + 1) mod 65536))) else decode op.
+    let b1 := commit B bset_ime s b in
+    let op := snd (brd b1 (pc s)) in
+    if op =? 203 then decode_cb (snd (brd (fst (brd b1 (pc s))) ((pc s + 1) mod 65536))) else decode op.
 
   Lemma spec_instr_cycles a b :
     snd (spec_instr B brd bwr bset_ime bime bpending a b) =
@@ -36,7 +37,7 @@ Section Timing.
   Qed.
 
   Theorem instr_cycles s b :
-    starts gen_tables B bime bpending s b -> wf s -> byte_bus B brd -> defined_at B brd s b ->
+    starts gen_tables B bime bpending s b -> wf s -> byte_bus B brd -> defined_at B brd bset_ime s b ->
     N.of_nat (snd (run_instr gen_tables B brd bwr btrig bcorrupt bime bset_ime bpending back s b)) =
     spec_cycles (instr_at s b) (rf s).
   Proof.
@@ -47,9 +48,9 @@ Section Timing.
   Qed.
 
   Theorem instr_schedule s b :
-    starts gen_tables B bime bpending s b -> wf s -> byte_bus B brd -> defined_at B brd s b ->
+    starts gen_tables B bime bpending s b -> wf s -> byte_bus B brd -> defined_at B brd bset_ime s b ->
     dtrace_of (trace (fst (fst (run_instr gen_tables B brd bwr btrig bcorrupt bime bset_ime bpending back s b)))) =
-    snd (fst (spec_instr B brd bwr bset_ime bime bpending (arch_of s) b)).
+    snd (fst (spec_instr B brd bwr bset_ime bime bpending (arch_of (set_eip false s)) (commit B bset_ime s b))).
   Proof.
     intros Hst Hwf Hbb Hd.
     pose proof (instr_refines B brd bwr btrig bcorrupt bime bset_ime bpending back Htrig Hcor s b Hst Hwf Hbb Hd)
